@@ -26,7 +26,7 @@ Proof.
   destruct (read mem 0 16) as [d|]; [|intros _; reflexivity].
   destruct (zlist_eqb (firstn 4 d) token); [|intros H; discriminate H].
   destruct (i_version (i2c_hdr_fields d) =? 0); [intros H; discriminate H|].
-  destruct (i_version (i2c_hdr_fields d) =? 1); [|intros _; reflexivity].
+  destruct (i_version (i2c_hdr_fields d) =? 1); [|intros H; discriminate H].
   destruct (read mem 16 5); [intros H; discriminate H|intros _; reflexivity].
 Qed.
 
@@ -58,57 +58,48 @@ Proof.
   - cbn [negb andb]. apply i2c_update_valid_fresh. exact P.
 Qed.
 
-(* F14c: a read that never completes (unknown version byte) leaves the callback pending; every later
-   update() is then ignored: a correct image written afterwards through the same object is never read *)
-Definition f14c_ops : list iop :=
-  [ISetMem [48; 120; 66; 67; 7; 0; 0; 0; 0; 0; 0; 0; 0; 0; 0; 0; 0; 0; 0; 0; 0];
-   IUpdate;
-   IWrite (mk_i2c 0 80 2 0 0 None);
-   IUpdate].
+(* F14c repaired: on a device that can serve the two read requests every update completes: the callback is
+   delivered exactly once and nothing stays pending, whatever the image holds *)
+Lemma i2c_update_completes : forall st mem, is_pending st = false -> (21 <= length mem)%nat ->
+  is_pending (fst (i2c_update st mem)) = false /\ is_cbs (fst (i2c_update st mem)) = is_cbs st + 1 /\
+  1 <= snd (i2c_update st mem) <= 2.
+Proof.
+  intros st mem P L. unfold i2c_update, read. rewrite P.
+  replace (0 + 16 <=? length mem)%nat with true by (symmetry; apply Nat.leb_le; lia).
+  replace (16 + 5 <=? length mem)%nat with true by (symmetry; apply Nat.leb_le; lia).
+  destruct (zlist_eqb _ token); [|cbn [fst snd is_pending is_cbs]; lia].
+  destruct (i_version _ =? 0); [cbn [fst snd is_pending is_cbs]; lia|].
+  destruct (i_version _ =? 1); cbn [fst snd is_pending is_cbs]; lia.
+Qed.
 
-Lemma i2c_f14c :
-  let '(st, mem) := i2c_run f14c_ops in
-  i2c_valid (i2c_parse mem) = true /\ is_valid st = false /\ is_pending st = true /\ is_cbs st = 0.
-Proof. vm_compute. repeat split; reflexivity. Qed.
-
-(* F14e: after a version-1 image, a valid version-0 image read through the same object still shows the
-   radio address of the earlier image *)
-Definition f14e_ops : list iop :=
-  [IWrite (mk_i2c 1 80 2 0 0 (Some 996028180225)); IUpdate;
-   ISetMem [48; 120; 66; 67; 0; 80; 2; 0; 0; 0; 0; 0; 0; 0; 0; 127; 255; 255; 255; 255; 255];
-   IUpdate].
-
-Lemma i2c_f14e :
-  let '(st, mem) := i2c_run f14e_ops in
-  i2c_parse mem = I2C_Res true true (Some (mk_i2c 0 80 2 0 0 None)) /\
-  is_valid st = true /\ is_elems st = Some (mk_i2c 0 80 2 0 0 (Some 996028180225)).
-Proof. vm_compute. repeat split; reflexivity. Qed.
+(* F14e repaired: a valid read reports exactly the fields of the image read, whatever was read before *)
+Lemma i2c_fields_last_read : forall st mem cb f, is_pending st = false ->
+  i2c_parse mem = I2C_Res true cb (Some f) -> is_elems (fst (i2c_update st mem)) = Some f.
+Proof.
+  intros st mem cb f P. unfold i2c_update, i2c_parse. rewrite P.
+  destruct (read mem 0 16) as [d|]; [|discriminate].
+  destruct (zlist_eqb (firstn 4 d) token); [|discriminate].
+  destruct (i_version (i2c_hdr_fields d) =? 0) eqn:V0.
+  - intros H. injection H as _ _ <-. reflexivity.
+  - destruct (i_version (i2c_hdr_fields d) =? 1); [|discriminate].
+    destruct (read mem 16 5); [|discriminate]. intros H. injection H as _ _ <-. reflexivity.
+Qed.
 
 (* ---------------------------------------------------------------- OWElement *)
-
-Lemma ow_elems_exc_indep : forall fuel ed d d', snd (ow_elems fuel ed d) = snd (ow_elems fuel ed d').
-Proof.
-  induction fuel as [|k IH]; intros ed d d'.
-  - destruct ed as [|a [|b r]]; reflexivity.
-  - destruct ed as [|a [|b r]]; [reflexivity|reflexivity|]. cbn [ow_elems].
-    destruct (ow_idb a); [apply IH|reflexivity].
-Qed.
 
 Lemma ow_check_from_indep d0 data :
   fst (fst (ow_check_from d0 data)) = fst (fst (ow_check_elements data)) /\
   snd (ow_check_from d0 data) = snd (ow_check_elements data).
 Proof.
   unfold ow_check_from, ow_check_elements. destruct (crc8 (removelast data) =? last data 0); [|split; reflexivity].
-  pose proof (ow_elems_exc_indep (length (removelast data)) (skipn 2 (removelast data)) d0 []) as E.
-  destruct (ow_elems _ _ d0) as [d1 e1]. destruct (ow_elems _ _ []) as [d2 e2]. cbn [snd] in E. subst e2.
-  split; reflexivity.
+  destruct (ow_elems _ _ []) as [d2 e2]. split; reflexivity.
 Qed.
 
 Lemma ow_check_from_exc d0 data x :
   snd (ow_check_from d0 data) = Some x -> fst (fst (ow_check_from d0 data)) = false.
 Proof.
   unfold ow_check_from. destruct (crc8 (removelast data) =? last data 0); [|discriminate].
-  destruct (ow_elems _ _ d0) as [d1 e1]. cbn [fst snd]. intros ->. reflexivity.
+  destruct (ow_elems _ _ []) as [d1 e1]. cbn [fst snd]. intros ->. reflexivity.
 Qed.
 
 Lemma ow_update_valid_fresh : forall st mem, os_pending st = false ->
@@ -167,28 +158,21 @@ Proof.
   - cbn [negb andb]. apply ow_update_valid_fresh. exact P.
 Qed.
 
-(* on an object whose dictionary is empty, the elements after an accepted update are the fresh parse's *)
-Lemma ow_update_elems_fresh : forall st mem o, os_pending st = false -> os_elems st = [] ->
-  ow_parse mem = OW_Res o -> os_elems (fst (fst (ow_update st mem))) = ow_elements o.
+(* F14d repaired: a valid read reports exactly the header and the elements of the image read, whatever the
+   dictionary held before (elements read earlier, or put there by the caller for write_data) *)
+Lemma ow_elems_last_read : forall st mem o, os_pending st = false ->
+  ow_parse mem = OW_Res o -> ow_valid o = true ->
+  os_elems (fst (fst (ow_update st mem))) = ow_elements o /\
+  os_hdr (fst (fst (ow_update st mem))) = Some (ow_pins o, ow_vid o, ow_pid o).
 Proof.
-  intros st mem o P E. unfold ow_update, ow_parse. rewrite P, E.
+  intros st mem o P. unfold ow_update, ow_parse. rewrite P.
   destruct (read mem 0 11) as [d|]; [|discriminate].
   destruct ((nthz 0 d =? 235) && (nthz 7 d =? crc8 (firstn 7 d))).
-  2:{ intros H. injection H as <-. reflexivity. }
+  2:{ intros H. injection H as <-. discriminate. }
   destruct (read mem 8 (Z.to_nat (nthz 9 d) + 3)) as [d2|]; [|discriminate].
-  change (ow_check_from [] d2) with (ow_check_elements d2).
-  destruct (ow_check_elements d2) as [[ok els] e]. intros H. injection H as <-.
-  destruct e; reflexivity.
+  unfold ow_check_from, ow_check_elements.
+  destruct (crc8 (removelast d2) =? last d2 0).
+  - destruct (ow_elems _ _ []) as [dd e]. intros H. injection H as <-. destruct e; [discriminate|].
+    intros _. split; reflexivity.
+  - intros H. injection H as <-. discriminate.
 Qed.
-
-(* F14d: the dictionary is never cleared: elements of an earlier image survive a later valid read of an
-   image that no longer has them *)
-Definition f14d_img : list Z := match ow_write 0 188 18 [(1, [90])] with Some i => i | None => [] end.
-Definition f14d_ops : list oop :=
-  [OWrite 0 188 18 [(1, [65; 66]); (2, [67])]; OUpdate; OSetMem f14d_img; OUpdate].
-
-Lemma ow_f14d :
-  let '(st, mem) := ow_run f14d_ops in
-  ow_parse mem = OW_Res (mk_ow true true 0 188 18 [(1, [90])] None) /\
-  os_valid st = true /\ os_elems st = [(1, [90]); (2, [67])].
-Proof. vm_compute. repeat split; reflexivity. Qed.
